@@ -3,7 +3,7 @@
 From Coq Require Import List NArith ZArith Bool.
 From H2V Require Import Base.Bytes Base.MachineInt Base.Result Spec.Rfc7540Frames
   Impl.Pools Impl.Frames Impl.FrameView
-  Proofs.FramesSpec Proofs.FramesRead Proofs.FramesC16 Proofs.FramesWrite Proofs.FramesForward
+  Proofs.FramesSpec Proofs.FramesRead Proofs.FramesC16 Proofs.FramesWrite Proofs.FramesForward Proofs.FramesPooled
   Proofs.FramesExamples.   (* compiled with the property so that the examples are checked too *)
 Import ListNotations.
 Local Open Scope N_scope.
@@ -38,32 +38,47 @@ Proof. exact read_written_bad_settings. Qed.
 Print Assumptions C05_read_bad_settings.
 
 (* write: every value of the settable fields, every stream id (reserved bit included), every
-   pre-set flags octet, every pad length AddPadding can draw: the bytes are the RFC encoding
-   of the frame the value stands for, an independent parser reads that frame back with
-   nothing left over, and the 9-byte header carries its length / type / flags / stream id *)
-Theorem C05_write : forall pre stream bd padn,
+   pre-set flags octet, every pad length AddPadding can draw, AND every previous state of the
+   FrameHeader (a pooled, reused object: whatever payload, length, type, flags, stream id,
+   limit and body it held from an earlier read or write): the bytes are the RFC encoding of
+   the frame the value stands for - so they do not depend on the previous state -, an
+   independent parser reads that frame back with nothing left over, and the 9-byte header
+   carries its length / type / flags / stream id *)
+Theorem C05_write : forall prev pre stream bd padn,
   pre < 256 -> stream < 2 ^ 32 -> body_ok bd -> 9 <= padn -> padn < 256 ->
   let fr := frame_of pre stream bd padn in
   payload_len fr < 2 ^ 24 ->
-  exists out f',
-    write_to (build pre stream bd) padn = Ok (out, f') /\
-    spec_parse out = Some (fr, []) /\ out = spec_write fr /\ wf fr /\
-    firstn 9 out = header_bytes (payload_len fr) (type_code (f_body fr)) (flags_of pre bd)
-                                (top_bit stream) (low31 stream).
-Proof. exact write_frame_parses. Qed.
+  exists f',
+    write_to (build_on prev pre stream bd) padn = Ok (spec_write fr, f') /\
+    spec_parse (spec_write fr) = Some (fr, []) /\ wf fr /\
+    firstn 9 (spec_write fr) = header_bytes (payload_len fr) (type_code (f_body fr)) (flags_of pre bd)
+                                            (top_bit stream) (low31 stream).
+Proof. exact write_frame_parses_on. Qed.
 Print Assumptions C05_write.
 
 (* the same value written a second time is the same frame again *)
-Theorem C05_write_twice : forall pre stream bd padn padn2,
+Theorem C05_write_twice : forall prev pre stream bd padn padn2,
   pre < 256 -> stream < 2 ^ 32 -> body_ok bd -> 9 <= padn -> padn < 256 -> 9 <= padn2 -> padn2 < 256 ->
   payload_len (frame_of pre stream bd padn) < 2 ^ 24 ->
   payload_len (frame_of (flags_of pre bd) stream bd padn2) < 2 ^ 24 ->
-  exists out1 f1 out2 f2,
-    write_to (build pre stream bd) padn = Ok (out1, f1) /\ write_to f1 padn2 = Ok (out2, f2) /\
-    out1 = spec_write (frame_of pre stream bd padn) /\
-    out2 = spec_write (frame_of (flags_of pre bd) stream bd padn2).
-Proof. exact write_twice. Qed.
+  exists f1 f2,
+    write_to (build_on prev pre stream bd) padn = Ok (spec_write (frame_of pre stream bd padn), f1) /\
+    write_to f1 padn2 = Ok (spec_write (frame_of (flags_of pre bd) stream bd padn2), f2).
+Proof. exact write_twice_on. Qed.
 Print Assumptions C05_write_twice.
+
+(* a different frame written next on the same header (e.g. a SETTINGS ack on the header the
+   SETTINGS was read into or written from) goes out as if the header were new *)
+Theorem C05_write_after_write : forall prev pre stream bd padn pre2 stream2 bd2 padn2,
+  pre < 256 -> stream < 2 ^ 32 -> body_ok bd -> 9 <= padn -> padn < 256 ->
+  payload_len (frame_of pre stream bd padn) < 2 ^ 24 ->
+  pre2 < 256 -> stream2 < 2 ^ 32 -> body_ok bd2 -> 9 <= padn2 -> padn2 < 256 ->
+  payload_len (frame_of pre2 stream2 bd2 padn2) < 2 ^ 24 ->
+  exists f1 f2,
+    write_to (build_on prev pre stream bd) padn = Ok (spec_write (frame_of pre stream bd padn), f1) /\
+    write_to (build_on f1 pre2 stream2 bd2) padn2 = Ok (spec_write (frame_of pre2 stream2 bd2 padn2), f2).
+Proof. exact write_after_write. Qed.
+Print Assumptions C05_write_after_write.
 
 (* SETTINGS: a peer applying the parameters on the wire to the RFC's initial values holds
    exactly the values of the accessors (zero values and "push disabled" included) *)
